@@ -123,8 +123,8 @@ theorem mac_end_fail {Q : Nat} {G rest : List Nat} (hs : Suf text Q (37 :: 101 :
   have h1 := Ev.seq_fail2 h32 hsk hstr (d := G.length + 100)
   have h31 : Ev (envOf text) (G.length + 106) (.ref 31) .nonAtomic false (Q + 1) none :=
     evr (gr31 text) (by omega)
-      (Ev.seq_fail1 (Ev.seq_fail1 (Ev.seq_fail1 h1 (d := G.length + 101)
-        (b := .star (.ref 41))) (d := G.length + 102) (b := .star (.seq (.str [44]) (.ref 41))))
+      (Ev.seq_fail1 (Ev.seq_fail1 h1 (d := G.length + 101)
+      (b := .opt (.seq (.ref 41) (.star (.seq (.str [44]) (.ref 41))))))
         (d := G.length + 103) (b := .str [41])) (d := G.length + 104) (at_ := .nonAtomic)
   have f13 : Ev (envOf text) (G.length + 109) (.ref 13) .nonAtomic false Q none :=
     evr (mac_gr13 text) (by omega) (Ev.seq_fail2 h37 skE h31 (d := G.length + 106)) (d := G.length + 107)
